@@ -1033,7 +1033,11 @@ where
                         match query_router.parse(&message) {
                             Ok(ast) => {
                                 if let Ok(output) = query_router.execute_plugins(&ast).await {
-                                    plugin_output = Some(output);
+                                    // A later Parse of the same batch must not overwrite
+                                    // the verdict on an earlier one.
+                                    if matches!(plugin_output, None | Some(PluginOutput::Allow)) {
+                                        plugin_output = Some(output);
+                                    }
                                 }
 
                                 let _ = query_router.infer(&ast);
@@ -1356,7 +1360,11 @@ where
                         if query_router.query_parser_enabled() {
                             if let Ok(ast) = query_router.parse(&message) {
                                 if let Ok(output) = query_router.execute_plugins(&ast).await {
-                                    plugin_output = Some(output);
+                                    // A later Parse of the same batch must not overwrite
+                                    // the verdict on an earlier one.
+                                    if matches!(plugin_output, None | Some(PluginOutput::Allow)) {
+                                        plugin_output = Some(output);
+                                    }
                                 }
                             }
                         }
